@@ -55,7 +55,40 @@ def self_reads(fi: FuncInfo, model: Model, depth: int = 1) -> Set[str]:
     return out
 
 
+def _flatten_spreads(d: ast.Dict, fi: FuncInfo) -> ast.Dict:
+    """`{..., **helper(args)}` where helper is a single-expression function the reference tree does not have and returns a dict literal:
+    the helper's entries take the place of the spread (later keys override earlier ones, as in the running program)."""
+    if all(k is not None for k in d.keys):
+        return d
+    from .dataflow import inline_new_helpers
+    keys, vals = [], []
+    for k, v in zip(d.keys, d.values):
+        if k is None:
+            w = inline_new_helpers(v, fi) if isinstance(v, ast.Call) else v
+            if isinstance(w, ast.Dict) and all(kk is not None for kk in w.keys):
+                ks, vs = list(w.keys), list(w.values)
+            else:
+                keys.append(k)
+                vals.append(v)
+                continue
+        else:
+            ks, vs = [k], [v]
+        for kk, vv in zip(ks, vs):
+            have = [i for i, x in enumerate(keys) if isinstance(x, ast.Constant) and isinstance(kk, ast.Constant) and x.value == kk.value]
+            if have:
+                vals[have[0]] = vv
+            else:
+                keys.append(kk)
+                vals.append(vv)
+    return ast.copy_location(ast.Dict(keys=keys, values=vals), d)
+
+
 def returned_dict(fi: FuncInfo) -> Optional[ast.Dict]:
+    d = _returned_dict(fi)
+    return _flatten_spreads(d, fi) if d is not None else None
+
+
+def _returned_dict(fi: FuncInfo) -> Optional[ast.Dict]:
     cfg = cfg_of(fi)
     for st in walk_body(fi):
         if isinstance(st, ast.Return) and st.value is not None:
@@ -91,6 +124,30 @@ def returned_dict(fi: FuncInfo) -> Optional[ast.Dict]:
                             vals.append(x.value)
                     return ast.copy_location(ast.Dict(keys=keys, values=vals), defs[0].value)
     return None
+
+
+def color_line(model: Model):
+    """_ufoColorLine read by role: -> (returned dict {key: expr}, stop variable, {ColorStop record key: expr text}) ; the last two are None
+    when ColorStop is not a list comprehension of dict records over `<gradient>.stops`."""
+    fi = model.func("paint", "_ufoColorLine")
+    d = returned_dict(fi)
+    if d is None or any(not isinstance(k, ast.Constant) for k in d.keys):
+        return fi, None, None, None
+    keys = {k.value: v for k, v in zip(d.keys, d.values)}
+    stop = keys.get("ColorStop")
+    if isinstance(stop, ast.Name):
+        cfg = cfg_of(fi)
+        rets = [st for st in walk_body(fi) if isinstance(st, ast.Return)]
+        defs = cfg.reaching(cfg.node_for(rets[-1]), stop.id) if rets else []
+        if len(defs) == 1 and defs[0].value is not None:
+            stop = defs[0].value
+    if not (isinstance(stop, ast.ListComp) and isinstance(stop.elt, ast.Dict) and len(stop.generators) == 1 and not stop.generators[0].ifs
+            and norm(stop.generators[0].iter).endswith(".stops") and isinstance(stop.generators[0].target, ast.Name)):
+        return fi, keys, None, None
+    rec = _flatten_spreads(stop.elt, fi)
+    if any(not isinstance(k, ast.Constant) for k in rec.keys):
+        return fi, keys, None, None
+    return fi, keys, stop.generators[0].target.id, {k.value: norm(v) for k, v in zip(rec.keys, rec.values)}
 
 
 def extract(model: Model) -> Dict[str, PaintClass]:
